@@ -30,6 +30,9 @@ func c11Inv(t *testing.T, s *optSuffixArrayParser, cfg OSAPConfig, what string) 
 	if s.OSAPConfig != cfg {
 		t.Fatalf("%s: the parser's configuration changed: %+v, created with %+v", what, s.OSAPConfig, cfg)
 	}
+	if os.Getenv("LZVC_PROP") == "C20" {
+		return // under C20 this stand-in only watches the configuration the parser reports
+	}
 	if !(0 <= s.start && s.start <= s.W && s.W <= len(s.Data) && s.start+len(s.edges) <= len(s.Data) && len(s.Data) <= s.BufferSize) {
 		t.Fatalf("%s: positions inconsistent: start=%d W=%d len(edges)=%d len(Data)=%d", what, s.start, s.W, len(s.edges), len(s.Data))
 	}
@@ -80,6 +83,9 @@ func c11Optimum(data []byte, w, n, ws, minLen, maxLen int) uint64 {
 }
 
 func c11BlockCost(t *testing.T, blk *Block, data []byte, w, n int, cfg OSAPConfig, what string) uint64 {
+	if os.Getenv("LZVC_PROP") == "C20" {
+		return 0
+	}
 	c := uint64(0)
 	pos := w
 	lits := blk.Literals
